@@ -124,6 +124,24 @@ def _c04_oracle(tr, origin, meta):
     out = oracles.c04_assets(tr, origin, meta['enabled'])
     unmarked = set(meta['unmarked'])
     excluded = {(u, t) for u, t in meta['excluded']}
+    private_now = set()       # (uuid, type) excluded after having been synchronized: private from the marker on
+    joined_after = {}         # peer -> set of (uuid, type) that were already private when it joined
+    for ev in tr['events']:
+        if ev[0] == 'mark' and ev[1][0] == 'excluded':
+            private_now.add((ev[1][1], int(ev[1][2])))
+        if ev[0] == 'op' and ev[2][0] == 'setup':
+            joined_after[ev[1]] = set(private_now)
+        if ev[0] == 'frame':
+            f = ev[1]
+            for frm, m in f.rcv:
+                if m[0] == 'comp' and m[2].isdigit() and (m[1], int(m[2])) in private_now:
+                    out.append(dict(signature='excluded-component-sent', origin=origin, what='peer %d received %s after the component was excluded on its owner' % (f.peer, ' '.join(m))))
+            for d in f.ents.values():
+                if d['ident'].startswith('r'):
+                    for t in d['compmap']:
+                        if (d.get('sync'), t) in joined_after.get(f.peer, set()):
+                            out.append(dict(signature='forbidden-component-replicated', origin=origin,
+                                            what='peer %d joined after component %d of %s was excluded and still holds it' % (f.peer, t, d.get('sync'))))
     for ev in tr['events']:
         if ev[0] != 'frame':
             continue
